@@ -176,6 +176,24 @@ def extract():
         _err("doPronounPlacement: pros.sort(key=lambda …) not found")
     res["sort_neg_as_pas"] = neg_as_pas
     res["sort_key_on_string"] = key_on_string
+    # Terminal.isReflexive: is a verb without `pat` guarded (`pat is None or "réfl" not in pat`) or does `"réfl" not in None` raise?
+    isr = _func(_src("Terminal.py"), "Terminal", "isReflexive")
+    guarded = None
+    for node in ast.walk(isr):
+        if isinstance(node, ast.Compare) and len(node.ops) == 1 and isinstance(node.ops[0], ast.NotIn) \
+                and isinstance(node.comparators[0], ast.Name) and node.comparators[0].id == "pat":
+            guarded = False
+    for node in ast.walk(isr):
+        if isinstance(node, ast.BoolOp) and isinstance(node.op, ast.Or):
+            has_none = any(isinstance(v, ast.Compare) and isinstance(v.left, ast.Name) and v.left.id == "pat"
+                           and isinstance(v.ops[0], ast.Is) and _lit(v.comparators[0]) is None
+                           and isinstance(v.comparators[0], ast.Constant) for v in node.values)
+            has_notin = any(isinstance(v, ast.Compare) and isinstance(v.ops[0], ast.NotIn) for v in node.values)
+            if has_none and has_notin:
+                guarded = True
+    if guarded is None:
+        _err("Terminal.isReflexive: the test `\"réfl\" not in pat` was not found")
+    res["refl_guards_no_pat"] = guarded
     # TerminalFr.conjugate
     tf = _src("TerminalFr.py")
     cj = _func(tf, "TerminalFr", "conjugate")
@@ -301,6 +319,8 @@ def generate():
     w("def sortKeyOnString : Bool := %s" % ("true" if r["sort_key_on_string"] else "false"))
     w("/-- does that key rank the second negative word (a Q: plus, jamais…) like `pas`? -/")
     w("def sortNegAsPas : Bool := %s" % ("true" if r["sort_neg_as_pas"] else "false"))
+    w("/-- Terminal.isReflexive: `pat is None or \"réfl\" not in pat` (true) or the bare `\"réfl\" not in pat` that raises TypeError on a verb without `pat` (false) -/")
+    w("def reflGuardsNoPat : Bool := %s" % ("true" if r["refl_guards_no_pat"] else "false"))
     w("def cliticCases : List Str := %s" % lstrs(r["clitic_cases"]))
     w("def relativeStop : List Str := %s" % lstrs(r["relative_stop"]))
     w("def compoundList : List Str := %s" % lstrs(r["compound_list"]))
